@@ -329,6 +329,20 @@ def rule_hygiene(ck, repo, R, pid, extra_modules=()):
                                                                                      f'copied without swapping the name',
                                    file=m.relpath, line=arms[j][0].lineno, func=qual, construct=src(arms[j][0])[:100])
     ck.count(f'{R}: mirrored twin arms', n_twin)
+    # H8-H12 (sa/r_lints.py): tri-state ladders, in-place change of an argument, substring membership, read of a slice that was just cut off,
+    # swallowing try around a loop
+    from . import r_lints as L
+    counts = {'tristate ladders': 0, 'argument mutation sites': 0, 'slice truncations': 0, 'try around loop': 0}
+    for m in mods:
+        classes = {id(f_): c for c in ast.walk(m.tree) if isinstance(c, ast.ClassDef) for f_ in c.body if isinstance(f_, ast.FunctionDef)}
+        for qual, fn in _functions(m.tree):
+            counts['tristate ladders'] += L.lint_tristate_ladders(ck, R, m, qual, fn)
+            counts['argument mutation sites'] += L.lint_argument_mutation(ck, R, m, qual, fn)
+            L.lint_substring_membership(ck, R, m, qual, fn, classes.get(id(fn)))
+            counts['slice truncations'] += L.lint_slice_after_truncation(ck, R, m, qual, fn)
+            counts['try around loop'] += L.lint_swallowing_try_around_loop(ck, R, m, qual, fn)
+    for k_, v_ in counts.items():
+        ck.count(f'{R}: {k_}', v_)
     ck.ok(R, 'parameters', f'{n_par} parameters read ({len(ALLOWED_PARAMS)} frozen exceptions)')
     ck.ok(R, 'assignments', f'{n_loc} plain assignments read')
     ck.count(f'{R}: parameters', n_par)
